@@ -3700,6 +3700,16 @@ func (r *Resolver) processDelegation(ctx context.Context, rs *resolveState, resp
 	// than restarting the lease (GHSA-mqfw-f48p-2vc8).
 	observedAt := time.Now()
 	leaseDeadline := observedAt.Add(time.Duration(nsInfo.nsTTL) * time.Second)
+	// The 12 h ceiling belongs to the lease, not just to the delegation
+	// cache's copy of it: this deadline also becomes the cut of every answer
+	// learned through the delegation and the bound deeper delegations
+	// inherit. Clamped only inside SetUntil, a two-day NS TTL let answers
+	// outlive the stored lease by up to twelve hours after the parent had
+	// re-pointed the zone, and let a descendant be stored (re-anchored at
+	// its own now+12h) past its ancestor.
+	if ceiling := observedAt.Add(authority.MaximumTTL); leaseDeadline.After(ceiling) {
+		leaseDeadline = ceiling
+	}
 
 	// DNSSEC validation for delegation
 	newParentDS, err := r.validateDelegation(ctx, rs.req, resp, q, rs.parentDS, rs.servers.Zone)
